@@ -325,21 +325,39 @@ def run_specs(EoN, rng, prop, n):
 
 
 # ---------------------------------------------------------------- shared block of C06 / C07 / C08 ----
-RULE = ('RHS2 TIE (every run): the 8 hand-modelled right-hand sides (_dSIS/_dSIR_individual_based_, _pair_based_, _heterogeneous_pairwise_, _effective_degree_) '
-        'evaluated in Python and in the extracted Coq definition of Model/Rhs2D.v at random dyadic points, rel 1e-9: random simple graphs on 2-6 nodes (2-4 for the pair-based '
+RULE = ('RHS2 TIE (every run): translate/rhs2d2v.py (fail-closed) re-emits coq/Gen/Rhs2.v from the 8 node-level / 2-D right-hand sides (_dSIS/_dSIR_individual_based_, _pair_based_, '
+        '_heterogeneous_pairwise_, _effective_degree_) and Props re-prove generated = hand-written model (Model/Rhs2D.v); both the generated and the hand-written definitions are extracted and '
+        'evaluated against the Python functions at random dyadic points, rel 1e-9: random simple graphs on 2-6 nodes (2-4 for the pair-based '
         'systems; complete / ring / random edge sets, int / str / tuple / offset labels, shuffled nodelist with index_of_node = enumerate(nodelist)), direction-dependent '
         'transmission rates and node-dependent recovery rates (8% all-zero), probabilities in (0,1) with boundary values X_i = 0 / Y_i = 1 in 25% of the pair-based points; '
         '1-4 degree classes with Ks a random increasing subset of 0..8 and a zero S_k in 20% of the points; array shapes (r, c) in 1..4 (60% square) with 15% zero cells. '
         'Each theorem about these systems is re-evaluated numerically on the Python functions (the failing-input search of the clause).')
 
 
-def check_block(run, EoN, prop, tier, report):
-    """model build + point-evaluation tie + numerical theorem specs for the 2-D / node-level systems.
-    report(run, key, what, replay, no_input=False) -> truthy when a new violation was recorded."""
+def regen_phase():
+    """re-run translate/rhs2d2v.py on the working tree (BEFORE the Props file is compiled: Props/C06-C08.v state that the
+    generated definitions equal the hand-written models).  -> None | the translator's refusal"""
+    try:
+        L2.regen()
+        return None
+    except L2.Rhs2Refused as e:
+        return 'translate/rhs2d2v.py refuses the current EoN/analytic.py: %s' % e
+    except Exception as e:
+        return 'translate/rhs2d2v.py failed: %s: %s' % (type(e).__name__, str(e)[:300])
+
+
+REFUSED_PROPS = lambda err: {'ok': False, 'theorems': [], 'axioms': {}, 'log': err, 'failed_at': None}
+
+
+def check_block(run, EoN, prop, tier, report, regen_err=None):
+    """model build + point-evaluation ties (hand-written model AND generated definitions) + numerical theorem specs for the
+    2-D / node-level systems.  report(run, key, what, replay, no_input=False) -> truthy when a new violation was recorded."""
     import random
     rng = random.Random(repr((run.seed, prop, 'rhs2')))
     thorough = tier == 'thorough'
     out = {'n_eval': 0, 'n_distinct': 0, 'samples': [], 'dist': {}, 'broken': [], 'found': 0}
+    if regen_err:
+        out['broken'].append(('rhs2-translator', regen_err + ' (the theorems "generated definition = hand-written model" are not re-established)'))
     ok, log = L2.build()
     if not ok:
         out['broken'].append(('rhs2-model-build', 'Model/Rhs2D.v / its extracted driver does not build: ' + log[-300:].replace('\n', ' ')))
@@ -347,6 +365,11 @@ def check_block(run, EoN, prop, tier, report):
         tie = L2.point_check(EoN, rng, 1500 if thorough else 220)
         out['n_eval'] += tie['n']; out['n_distinct'] += tie['distinct']; out['samples'] += tie['samples'][:1]
         out['dist']['rhs2_points_agreeing_per_function'] = tie['per_fn']
+        out['dist']['rhs2_points_agreeing_per_function_generated'] = tie['gen_per_fn']
+        if tie['gen_mism'] and not regen_err:
+            m = tie['gen_mism'][0]
+            out['broken'].append(('rhs2-generated-tie', 'the definition generated by translate/rhs2d2v.py and the code disagree at a point (translator / numpy semantics): %s point=%s python=%s generated=%s (%d of %d points)'
+                                  % (m[0], json_short(m[1]), short_list(m[2]), short_list(m[3]), len(tie['gen_mism']), tie['n'])))
         if tie['mism']:
             m = tie['mism'][0]
             out['broken'].append(('rhs2-tie', 'hand-written model Model/Rhs2D.v and the code disagree at a point: %s point=%s python=%s model=%s (%d of %d points)'
